@@ -36,6 +36,11 @@ def pattern_asts():
         (GS2, SL, word('.d'), SL, word('x')), (word('a'), SL, SL, word('x')), (seg(lit('A')),), (word('up'),), (word('a'), SL, word('X')),
         (GS2, SL, word('c'), SL, GS2), (word('r'), SL, GS2, SL, word('y')), (GS2, SL, word('lf')), (word('ld'), SL, seg(STAR)), (word('d'), SL, seg(Q, Q)),
         (word('d'), SL), (seg(lit('d'), STAR), SL), (seg(Q), SL), (word('d'),), (word('f'),), (SL, word('a')) if False else (word('x'), SL),
+        (word('a'), SL, seg(lit('.', True), lit('.', True)), SL, seg(STAR)), (word('a'), SL, seg(lit('.'), lit('.', True)), SL, word('a'), SL, word('x')),
+        (word('a'), SL, seg(lit('.', True)), SL, word('x')), (seg(STAR), SL, seg(lit('.', True), lit('.', True)), SL, seg(STAR)),
+        (word('a'), SL, GS2, SL, seg(lit('.', True), lit('.')), SL, seg(STAR)),
+        (word('a'), SL, seg(g('@', [lit('.'), lit('.')])), SL, seg(STAR)), (word('Data'), SL, seg(STAR)), (word('data'), SL, seg(STAR)), (word('DATA'), SL, seg(STAR)),
+        (word('p'), SL, seg(STAR), SL, word('f')), (seg(lit('a'), lit('\\', True), lit('b')),), (seg(lit('a'), lit('*', True), lit('b')),),
         (seg(gen.cls(1), STAR),), (GS2, SL, seg(neg([lit('x')]))), (seg(lit('.', True), lit('h')),), (seg(gen.cls(6), STAR),), (seg(STAR, Q),),
     ]
     return A
